@@ -10,8 +10,8 @@ import (
 	"ariga.io/atlas/sql/schema"
 )
 
-func ip(i int) *int    { return &i }
-func bp(b bool) *bool  { return &b }
+func ip(i int) *int       { return &i }
+func bp(b bool) *bool     { return &b }
 func sp(s string) *string { return &s }
 
 // hostile enum / set value lists.
